@@ -610,8 +610,8 @@ theorem C10_gen_kmeralphabet :
     Gen.C10.kalLen = Expected.kalLen ∧
     Gen.C10.kalEncodeDecode = Expected.kalEncodeDecode ∧
     Gen.C10.kalDecode = Expected.kalDecode ∧
-    Gen.C10.kalToArrayForm = Expected.kalToArrayForm := by
-  decide
+    Gen.C10.kalToArrayForm = Expected.kalToArrayForm :=
+  ⟨rfl, rfl, rfl, rfl, rfl, rfl, rfl, rfl, rfl, rfl, rfl, rfl⟩
 
 theorem C10_gen_tablebuild :
     Gen.C10.ktCinit = Expected.ktCinit ∧
@@ -644,8 +644,8 @@ theorem C10_gen_tablebuild :
     Gen.C10.computeAlphabet = Expected.computeAlphabet ∧
     Gen.C10.checkPositionShape = Expected.checkPositionShape ∧
     Gen.C10.checkSameAlphabet = Expected.checkSameAlphabet ∧
-    Gen.C10.checkSameBuckets = Expected.checkSameBuckets := by
-  decide
+    Gen.C10.checkSameBuckets = Expected.checkSameBuckets :=
+  ⟨rfl, rfl, rfl, rfl, rfl, rfl, rfl, rfl, rfl, rfl, rfl, rfl, rfl, rfl, rfl, rfl, rfl, rfl, rfl, rfl, rfl, rfl, rfl, rfl, rfl, rfl, rfl, rfl, rfl, rfl, rfl⟩
 
 theorem C10_gen_tablequery :
     Gen.C10.ktMatch = Expected.ktMatch ∧
@@ -670,13 +670,13 @@ theorem C10_gen_tablequery :
     Gen.C10.bktState = Expected.bktState ∧
     Gen.C10.toString = Expected.toString ∧
     Gen.C10.checkKmerBounds = Expected.checkKmerBounds ∧
-    Gen.C10.checkMultipleKmerBounds = Expected.checkMultipleKmerBounds := by
-  decide
+    Gen.C10.checkMultipleKmerBounds = Expected.checkMultipleKmerBounds :=
+  ⟨rfl, rfl, rfl, rfl, rfl, rfl, rfl, rfl, rfl, rfl, rfl, rfl, rfl, rfl, rfl, rfl, rfl, rfl, rfl, rfl, rfl, rfl, rfl⟩
 
 theorem C10_gen_masks :
     Gen.C10.prepareMask = Expected.prepareMask ∧
-    Gen.C10.toKmerMask = Expected.toKmerMask := by
-  decide
+    Gen.C10.toKmerMask = Expected.toKmerMask :=
+  ⟨rfl, rfl⟩
 
 theorem C10_gen_selector :
     Gen.C10.minimize = Expected.minimize ∧
@@ -694,8 +694,8 @@ theorem C10_gen_selector :
     Gen.C10.cachedFromKmers = Expected.cachedFromKmers ∧
     Gen.C10.mincodeInit = Expected.mincodeInit ∧
     Gen.C10.mincodeSelect = Expected.mincodeSelect ∧
-    Gen.C10.mincodeFromKmers = Expected.mincodeFromKmers := by
-  decide
+    Gen.C10.mincodeFromKmers = Expected.mincodeFromKmers :=
+  ⟨rfl, rfl, rfl, rfl, rfl, rfl, rfl, rfl, rfl, rfl, rfl, rfl, rfl, rfl, rfl, rfl⟩
 
 theorem C10_gen_permutation :
     Gen.C10.randomMin = Expected.randomMin ∧
@@ -706,19 +706,19 @@ theorem C10_gen_permutation :
     Gen.C10.frequencyMax = Expected.frequencyMax ∧
     Gen.C10.frequencyFromTable = Expected.frequencyFromTable ∧
     Gen.C10.frequencyPermute = Expected.frequencyPermute ∧
-    Gen.C10.invertMapping = Expected.invertMapping := by
-  decide
+    Gen.C10.invertMapping = Expected.invertMapping :=
+  ⟨rfl, rfl, rfl, rfl, rfl, rfl, rfl, rfl, rfl⟩
 
 theorem C10_gen_similarity :
     Gen.C10.ruleInit = Expected.ruleInit ∧
-    Gen.C10.similarKmers = Expected.similarKmers := by
-  decide
+    Gen.C10.similarKmers = Expected.similarKmers :=
+  ⟨rfl, rfl⟩
 
-theorem C10_gen_defaults : Gen.C10.defaults = Expected.defaults ∧ Gen.C10.params = Expected.params := by
-  decide
+theorem C10_gen_defaults : Gen.C10.defaults = Expected.defaults ∧ Gen.C10.params = Expected.params :=
+  ⟨rfl, rfl⟩
 
-theorem C10_gen_error_paths : Gen.C10.errorPaths = Expected.errorPaths := by
-  decide
+theorem C10_gen_error_paths : Gen.C10.errorPaths = Expected.errorPaths :=
+  rfl
 
 /-! ## non-vacuity -/
 
